@@ -73,3 +73,48 @@ Definition factors_from_svd (k : nat) (t : list hev) : bool := forallb (has_svd 
 Definition sweeps_of (t : list hev) : nat := length (filter (fun e => match e with HP (Some 0) => true | _ => false end) t).
 (* the encoding compared with the implementation's call log *)
 Definition code (e : hev) : nat := match e with HS i => 100 + i | HP None => 2 | HP (Some i) => 10 + i | HR => 3 end.
+
+(* ------------------------------------------------------------------ the loop of partial_tucker as DATA (read off the source by the harness) *)
+(* One constructor per statement kind of the loop body, in source order:
+   SImpute: `if mask is not None: tensor = ...` ; SSweep: the `for index, mode in enumerate(modes)` loop assigning factors[index] from svd_interface ;
+   SProject: `core = multi_mode_dot(tensor, factors, ..., transpose=True)` without skip ; SRecon: a mask-only computation that assigns no state ;
+   SBreakTest c g: a `break` reachable from iteration c on, guarded by `tol` (g) and a data-dependent test.
+   hp_init_projects: the init == 'svd' branch of initialize_tucker ends with the projection. *)
+Inductive hstmt := SImpute | SSweep | SProject | SRecon | SBreakTest (first_it : nat) (tol_guarded : bool).
+Record hprog := mkHprog { hp_init_projects : bool; hp_body : list hstmt }.
+(* is the core clean (= projection onto the current factors of the current tensor) at every exit of the body?  `clean` at entry is false:
+   nothing is known about the state a sweep starts from *)
+Fixpoint scan (clean : bool) (l : list hstmt) : bool :=
+  match l with
+  | [] => clean
+  | SImpute :: l' => scan false l'
+  | SSweep :: l' => scan false l'
+  | SProject :: l' => scan true l'
+  | SRecon :: l' => scan clean l'
+  | SBreakTest _ _ :: l' => clean && scan clean l'
+  end.
+Definition prog_ok (p : hprog) : bool := hp_init_projects p && scan false (hp_body p).
+Section Prog.
+  Variable St : Type.
+  Variables (svd_init impute project recon : St -> St) (update : nat -> St -> St).
+  Fixpoint run_body (k : nat) (mask tol_set : bool) (it : nat) (d : bool) (l : list hstmt) (s : St) : St * bool :=
+    match l with
+    | [] => (s, false)
+    | SImpute :: l' => run_body k mask tol_set it d l' (when St mask impute s)
+    | SSweep :: l' => run_body k mask tol_set it d l' (hooi_sweep St update k s)
+    | SProject :: l' => run_body k mask tol_set it d l' (project s)
+    | SRecon :: l' => run_body k mask tol_set it d l' (when St mask recon s)
+    | SBreakTest c g :: l' => if (c <=? it) && (tol_set || negb g) && d then (s, true) else run_body k mask tol_set it d l' s
+    end.
+  Fixpoint prog_loop (body : list hstmt) (k : nat) (mask tol_set : bool) (it fuel : nat) (decisions : list bool) (s : St) : St :=
+    match fuel with
+    | O => s
+    | S fuel' => let r := run_body k mask tol_set it (hd false decisions) body s in
+                 if snd r then fst r else prog_loop body k mask tol_set (S it) fuel' (tl decisions) (fst r)
+    end.
+  Definition prog_run (p : hprog) (ik : init_kind) (k : nat) (mask tol_set : bool) (n : nat) (decisions : list bool) (s0 : St) : St :=
+    prog_loop (hp_body p) k mask tol_set 0 n decisions
+      (match ik with InitSvd => (if hp_init_projects p then project (svd_init s0) else svd_init s0) | _ => s0 end).
+End Prog.
+(* the hand-written skeleton above as a program *)
+Definition hooi_prog : hprog := mkHprog true [SImpute; SSweep; SProject; SRecon; SBreakTest 2 true].
